@@ -76,7 +76,7 @@ func (p *Pair) Dial() {
 		Subprotocols:      p.O.ClientSub,
 	}
 	p.Client, p.Resp, p.ClientErr = d.Dial("ws://sim.example/ws", nil)
-	p.HsC2S = int(p.CC.Out.Total)
+	p.HsC2S = int(p.CC.Out.TotalNow())
 	p.cdone.set()
 }
 
@@ -100,7 +100,7 @@ func (p *Pair) Upgrade() {
 	if p.ServerErr != nil && w.code != 0 {
 		p.ServerErr = fmt.Errorf("%w (http %d: %s)", p.ServerErr, w.code, strings.TrimSpace(w.body.String()))
 	}
-	p.HsS2C = int(p.SC.Out.Total)
+	p.HsS2C = int(p.SC.Out.TotalNow())
 }
 
 // ClientDone / ServerDone are conditions other tasks can block on.
